@@ -124,10 +124,14 @@ class Server:
                 raw = sse_event(ev, data, self.framing)
                 if self.est.get("preamble"):
                     raw = b": welcome\n\nevent: keepalive\ndata: {}\n\n" + raw
+                if self.case.get("msgs_with_announcement") and self.case.get("server_msgs"):
+                    # the server's first messages travel in the very chunk that announces the endpoint
+                    raw += b"".join(sse_event(None if self.bare else "message", json.dumps(w, ensure_ascii=False), self.framing)
+                                    for w in self.case["server_msgs"])
                 chunks.append((t, ("ANNOUNCE", raw)))
             # server-initiated messages (after the announcement)
             sm = self.case.get("server_msgs") or []
-            if sm:
+            if sm and not self.case.get("msgs_with_announcement"):
                 if self.case.get("batch_event"):
                     # all of them in one event: a JSON-RPC batch
                     raw = sse_event(None if self.bare else "message", json.dumps(sm, ensure_ascii=False), self.framing)
@@ -341,6 +345,12 @@ def gen_cases(ctx):
                            "server_msgs_at": 0.3,
                            "requests": [{"id": "f1", "mode": "202_then_event", "delay": 0.2}, {"id": "f2", "mode": "event_then_202", "delay": 0.1},
                                         {"id": "f3", "mode": "200_body"}], "exit": "normal"}
+    # --- server messages right behind the endpoint announcement, in the same chunk -----------------------
+    for est_kind in ("path", "untyped_path", "query"):
+        for delay in (None, 0.3):
+            yield {"est": ({"kind": est_kind} if delay is None else {"kind": "slow", "delay": delay, "form": est_kind}),
+                   "server_msgs": sm0, "cuts": [], "msgs_with_announcement": True, "bare": est_kind == "untyped_path",
+                   "requests": [{"id": "after-early", "mode": "202_then_event", "delay": 0.1}], "exit": "normal"}
     # --- all the server's messages in one event (a JSON-RPC batch) -------------------------------------
     for bare in (False, True):
         yield {"est": {"kind": "path"}, "bare": bare, "server_msgs": sm0, "cuts": [], "batch_event": True, "server_msgs_at": 0.3,
